@@ -112,7 +112,12 @@ pub fn judge_program(p: &Prog, cssout: &str, maxn: usize) -> Verdict {
     let feat = collect_features(&all);
     // keep the DOM space enumerable
     let nl = label_count(&feat);
-    let maxn = if nl > 64 { maxn.min(2) } else if nl > 24 { maxn.min(3) } else { maxn };
+    let mut maxn = if nl > 64 { maxn.min(2) } else if nl > 24 { maxn.min(3) } else { maxn };
+    // an extender of three compounds woven into a two-compound rule needs four elements for a witness
+    let deep = exts.iter().any(|(e, _)| e.iter().any(|cx| cx.iter().filter(|p| matches!(p, Part::C(_))).count() >= 3));
+    if deep && nl <= 32 {
+        maxn = maxn.max(4);
+    }
     let mut first: Option<(String, String)> = None;
     let doms = for_each_dom(&feat, maxn, |dom| {
         let credit = credit_fixpoint(&feat, dom, &exts);
@@ -186,6 +191,10 @@ pub fn judge_program(p: &Prog, cssout: &str, maxn: usize) -> Verdict {
 const COMPOUNDS: &[&str] = &[".x", ".y", "a", "a.x", ".x.y", "#i", ".x:hover", ":not(.x)", ":is(.x, .y)", "b.y", "%p", "[t]", ".x::before", "a#i"];
 const COMPLEXES: &[&str] = &[".x .y", ".y > .x", "a + .x", ".z ~ .x", ".x .x", ".x > .y .x", "a .x", ".x, .y", "a > .y, .x"];
 const EXTENDERS: &[&str] = &[".z", "b", ".z.y", ".z .w", "b > .z", "#j", ".z + .w", ".z, .w", ".z:hover", ":focus"];
+/// extenders of three compounds with two combinator levels (judged on DOMs of 4 elements against a
+/// reduced set of rules)
+const DEEP_EXTENDERS: &[&str] = &["b > .z + .w", "b .z > .w", "b + .z ~ .w", "b > .z .w"];
+const DEEP_RULES: &[&str] = &[".x", "a .x", "a > .x", "a + .x", ".y > a + .x", "a .x .y"];
 const TARGETS: &[&str] = &[".x", ".y", "a", "#i", "%p", ":hover", "[t]", "::before"];
 
 fn programs(ctx: &Ctx) -> Vec<Prog> {
@@ -200,6 +209,15 @@ fn programs(ctx: &Ctx) -> Vec<Prog> {
                     let b = (e1.to_string(), vec![(t.to_string(), true)], false);
                     v.push(Prog { rules: if order == 0 { vec![a, b] } else { vec![b, a] } });
                 }
+            }
+        }
+    }
+    for s1 in DEEP_RULES {
+        for e1 in DEEP_EXTENDERS {
+            for order in 0..2 {
+                let a = (s1.to_string(), vec![], false);
+                let b = (e1.to_string(), vec![(".x".to_string(), true)], false);
+                v.push(Prog { rules: if order == 0 { vec![a, b] } else { vec![b, a] } });
             }
         }
     }
@@ -241,6 +259,9 @@ fn programs(ctx: &Ctx) -> Vec<Prog> {
 }
 
 pub fn run(ctx: &Ctx) {
+    // the watchdog's clock also covers the harness's own oracle work (reference models, DOM enumeration);
+    // the limit is generous so that machine load cannot turn a slow case into a verdict
+    ctx.hang_limit_s.store(ctx.pick(300, 3600), std::sync::atomic::Ordering::Relaxed);
     let progs = programs(ctx);
     let maxn = ctx.pick(3, 4);
     let sub = "extend-programs";
@@ -291,7 +312,7 @@ pub fn run(ctx: &Ctx) {
         },
     );
     ctx.add(sub, "doms_judged", total_doms.load(std::sync::atomic::Ordering::Relaxed));
-    ctx.bound(sub, &format!("{} programs: 23 target selectors x 9 extenders x 8 targets x 2 rule orders; 8 two-extend shapes (chains, cycles, shared targets) x rule permutations; shared pseudo arguments; trimming shapes. Each judged on every DOM of <= {} elements over the program's features (soundness, completeness for single-compound extenders, first and second law, no placeholders)", progs.len(), maxn), true);
+    ctx.bound(sub, &format!("{} programs: 23 target selectors x 10 extenders x 8 targets x 2 rule orders; 6 rules x 4 three-compound extenders (DOMs of 4 elements); 8 two-extend shapes (chains, cycles, shared targets) x rule permutations; shared pseudo arguments; trimming shapes. Each judged on every DOM of <= {} elements over the program's features (soundness, completeness for single-compound extenders, first and second law, no placeholders)", progs.len(), maxn), true);
     ctx.sample(sub, json!({"program": ".x .y{m:r0;}\n.z{m:r1;@extend .y !optional;}", "oracle": "for every DOM and element: output matches iff source matches with crediting"}));
 
     // ---- (vi) rule-order invariance of match sets is covered by enumerating both orders above:
